@@ -281,6 +281,8 @@ func newExec(t *testing.T) func([]string) string {
 				return decKind(err)
 			}
 			return fmt.Sprintf("ok %d %s", curve, hlib.Hex(key))
+		case "kdftamper":
+			return execKdfTamper(a)
 		}
 		return "bad-op"
 	}
@@ -329,6 +331,7 @@ func gen(r *hlib.Rand, n int, tier, profile string, emit func(string, ...any)) {
 		}
 	}
 	emit("enc 2 - 00 8 1 1")
+	genKdfParams(r, n, tier, emit) // kdfparams_test.go
 	for i := 0; i < n; i++ {
 		curve := cert.Curve(r.Intn(2))
 		keyLen := 64
